@@ -172,6 +172,7 @@ void harness(void) {
 	if (invalid) {
 		VF_ASSERT(r == EINVAL && vf_cb_total == 0 && vf_done_calls == 0 && vf_snd_calls == 0,
 		    "cbsend: NULL pool / callback / completion, SYNC flags or no originating thread => EINVAL, nothing happens");
+		VF_CANARY("cbsend: refused");
 	} else {
 		const size_t targeted = n - (((flags & TP_BMSG_F_SELF_SKIP) && self_in_pool) ? 1 : 0);
 		VF_ASSERT(vf_done_calls <= 1, "cbsend: the completion callback never runs twice");
@@ -204,10 +205,12 @@ void harness(void) {
 				}
 			}
 		}
+#if VF_SELF != 0
 		if (vf_done_calls == 1 && vf_cb_total == VF_NTHR && obo) VF_CANARY("cbsend: one-by-one over the whole pool, completed");
 		if (vf_done_calls == 1 && vf_cb_total == VF_NTHR && !obo && done_at_return == 0) VF_CANARY("cbsend: parallel over the whole pool, completed later");
 		if (r != 0 && obo) VF_CANARY("cbsend: one-by-one, nothing could be sent");
 		if (r != 0 && !obo && vf_done_calls == 1) VF_CANARY("cbsend: parallel, everything failed");
+#endif
 	}
 	/* heap: double free is checked in free(); a record still allocated here is reported by --memory-leak-check */
 	VF_CANARY("cbsend harness end");
